@@ -2,6 +2,7 @@ package engine
 
 import (
 	"fmt"
+	"go/token"
 	"go/types"
 	"sort"
 	"strings"
@@ -142,8 +143,23 @@ func (it *Interp) invoke(fn *ssa.Function, st *State, instr ssa.CallInstruction,
 	if len(bindings) > 0 {
 		all = append(append([]AbsVal{}, args...), bindings...)
 	}
-	// canonicalise the reachable heap.
-	order := reachable(st.Heap, all)
+	// constants that the callee cannot branch on or store are abstracted
+	// away (fewer distinct entries).
+	args = append([]AbsVal{}, args...)
+	for i, a := range args {
+		if _, isConst := a.(Const); isConst && i < len(callee.Params) {
+			if !it.paramRelevant(callee.Params[i]) {
+				args[i] = Top{}
+			}
+		}
+	}
+	all = args
+	if len(bindings) > 0 {
+		all = append(append([]AbsVal{}, args...), bindings...)
+	}
+	// canonicalise the visible part of the reachable heap: an interior
+	// pointer exposes only the leaves below it (frame rule).
+	order, vis := visible(st.Heap, all)
 	fwd := map[string]string{}
 	back := map[string]string{}
 	for i, id := range order {
@@ -156,7 +172,9 @@ func (it *Interp) invoke(fn *ssa.Function, st *State, instr ssa.CallInstruction,
 		o := st.Heap[id]
 		no := &Object{Type: o.Type, TrackAll: o.TrackAll, Fields: make(map[string]AbsVal, len(o.Fields))}
 		for k, v := range o.Fields {
-			no.Fields[k] = rename(v, fwd)
+			if under(k, vis[id]) {
+				no.Fields[k] = rename(v, fwd)
+			}
 		}
 		ch[fwd[id]] = no
 	}
@@ -171,6 +189,7 @@ func (it *Interp) invoke(fn *ssa.Function, st *State, instr ssa.CallInstruction,
 	it.stack = append(it.stack, instr)
 	sum := it.analyzeB(callee, cargs, cbind, ch, calleePanicCtx)
 	it.stack = it.stack[:len(it.stack)-1]
+	it.seenDep(sum)
 
 	tag := callTag(instr)
 	var out []callResult
@@ -203,6 +222,14 @@ func (it *Interp) invoke(fn *ssa.Function, st *State, instr ssa.CallInstruction,
 			for k, v := range obj.Fields {
 				no.Fields[k] = rename(v, nb)
 			}
+			if orig, passed := back[id]; passed {
+				// leaves the callee could not see are unchanged
+				for k, v := range st.Heap[orig].Fields {
+					if !under(k, vis[orig]) {
+						no.Fields[k] = v
+					}
+				}
+			}
 			nh[nb[id]] = no
 		}
 		res := callResult{heap: nh, ret: rename(o.Ret, nb), exc: o.Exc, recovered: o.Recovered}
@@ -225,6 +252,174 @@ func callTag(instr ssa.Instruction) string {
 		}
 	}
 	return "c?"
+}
+
+// under reports whether leaf path k lies below one of the prefixes.
+func under(k string, prefixes []string) bool {
+	for _, p := range prefixes {
+		if p == "" || k == p || strings.HasPrefix(k, p+".") {
+			return true
+		}
+	}
+	return false
+}
+
+// visible computes, for the objects reachable from roots, the path prefixes
+// through which they are reachable, in deterministic order.
+func visible(h Heap, roots []AbsVal) ([]string, map[string][]string) {
+	vis := map[string][]string{}
+	var order []string
+	type ap struct{ obj, path string }
+	var work []ap
+	addRefs := func(v AbsVal) {
+		var walk func(v AbsVal)
+		walk = func(v AbsVal) {
+			switch x := v.(type) {
+			case Ptr:
+				work = append(work, ap{x.Obj, x.Path})
+			case SliceOf:
+				work = append(work, ap{x.Obj, sliceOwner(x.Path)})
+			case LenOf:
+				work = append(work, ap{x.S.Obj, sliceOwner(x.S.Path)})
+			case StructV:
+				ks := make([]string, 0, len(x.Fields))
+				for k := range x.Fields {
+					ks = append(ks, k)
+				}
+				sort.Strings(ks)
+				for _, k := range ks {
+					walk(x.Fields[k])
+				}
+			case TupleV:
+				for _, e := range x.Elems {
+					walk(e)
+				}
+			case FuncV:
+				for _, b := range x.Bindings {
+					walk(b)
+				}
+			case IfaceV:
+				walk(x.V)
+			}
+		}
+		walk(v)
+	}
+	for _, r := range roots {
+		addRefs(r)
+	}
+	for len(work) > 0 {
+		a := work[0]
+		work = work[1:]
+		o := h[a.obj]
+		if o == nil {
+			continue
+		}
+		if under(a.path, vis[a.obj]) && len(vis[a.obj]) > 0 {
+			continue
+		}
+		if _, seen := vis[a.obj]; !seen {
+			order = append(order, a.obj)
+		}
+		// drop prefixes subsumed by the new one
+		var np []string
+		for _, p := range vis[a.obj] {
+			if !under(p, []string{a.path}) {
+				np = append(np, p)
+			}
+		}
+		vis[a.obj] = append(np, a.path)
+		ks := make([]string, 0, len(o.Fields))
+		for k := range o.Fields {
+			if under(k, []string{a.path}) {
+				ks = append(ks, k)
+			}
+		}
+		sort.Strings(ks)
+		for _, k := range ks {
+			addRefs(o.Fields[k])
+		}
+	}
+	for _, ps := range vis {
+		sort.Strings(ps)
+	}
+	return order, vis
+}
+
+// sliceOwner: the struct that owns a slice field (its ghosts travel with it).
+func sliceOwner(path string) string {
+	if i := strings.LastIndex(path, "."); i >= 0 {
+		return path[:i]
+	}
+	return ""
+}
+
+// paramRelevant reports whether the callee can branch on, store or forward
+// parameter p (so that a constant argument is worth keeping).
+func (it *Interp) paramRelevant(p *ssa.Parameter) bool {
+	switch it.relevant[p] {
+	case 1:
+		return true
+	case 2:
+		return false
+	}
+	it.relevant[p] = 1 // cycles: conservative
+	res := false
+	var visit func(v ssa.Value, depth int)
+	visit = func(v ssa.Value, depth int) {
+		if res || depth > 4 {
+			if depth > 4 {
+				res = true
+			}
+			return
+		}
+		refs := v.Referrers()
+		if refs == nil {
+			return
+		}
+		for _, r := range *refs {
+			switch r := r.(type) {
+			case *ssa.BinOp:
+				switch r.Op {
+				case token.EQL, token.NEQ, token.LSS, token.LEQ, token.GTR, token.GEQ:
+					res = true
+				}
+			case *ssa.If, *ssa.Store, *ssa.Phi, *ssa.Return, *ssa.MakeClosure, *ssa.Defer, *ssa.UnOp:
+				res = true
+			case *ssa.Convert:
+				visit(r, depth+1)
+			case *ssa.ChangeType:
+				visit(r, depth+1)
+			case *ssa.MakeInterface:
+				visit(r, depth+1)
+			case *ssa.Call:
+				c := r.Common()
+				f := c.StaticCallee()
+				if f == nil || f.Blocks == nil || !it.Cfg.InModule(f) {
+					if _, isB := c.Value.(*ssa.Builtin); isB {
+						res = true // copy/append of a marker constant etc.
+					}
+					continue
+				}
+				for i, a := range c.Args {
+					if a == v && i < len(f.Params) {
+						if it.paramRelevant(f.Params[i]) {
+							res = true
+						}
+					}
+				}
+			}
+			if res {
+				return
+			}
+		}
+	}
+	visit(p, 0)
+	if res {
+		it.relevant[p] = 1
+	} else {
+		it.relevant[p] = 2
+	}
+	return res
 }
 
 // reachable lists object ids reachable from roots, in deterministic DFS order.
@@ -411,6 +606,9 @@ type cbInstr struct {
 }
 
 func (c cbInstr) String() string { return "callback " + c.m.String() }
+
+// Inner returns the call during which the callback happens.
+func (c cbInstr) Inner() ssa.Instruction { return c.CallInstruction }
 
 // IsCallback reports whether the stack entry is a modelled callback.
 func IsCallback(i ssa.Instruction) (*ssa.Function, bool) {
